@@ -607,3 +607,25 @@ Proof.
     + eapply (c4 _ C); eauto.
     + intros Hpr Hd. subst s1 s2. eapply D; eauto.
 Qed.
+
+(* ------------------------------------------------------------------ no deadlock, with submitters that only submit *)
+Lemma submit_not_waiting : forall th h, submit_thread th = true -> waiting_get th h = false.
+Proof.
+  intros [prog p] h H. unfold submit_thread in H. cbn [t_pc t_prog] in H. apply andb_true_iff in H. destruct H as [A B].
+  unfold waiting_get. cbn [t_pc t_prog]. destruct p; try discriminate B; auto.
+  destruct prog as [|a r]; auto. destruct a; auto. discriminate A.
+Qed.
+
+Theorem no_deadlock_loop : forall progs sch, submitters_only progs ->
+  let st := steps sch (init progs) in
+  (exists t, enabled t st = true) \/
+  (forall t th, nth_error (c_thr st) t = Some th ->
+     finished th = true \/ (t = 0 /\ waiting_get th (c_sh st) = true)).
+Proof.
+  intros progs sch S st. destruct (no_deadlock progs sch) as [E|W]; [left; exact E|right].
+  intros t th Ht. fold st in W. destruct (W t th Ht) as [F|X]; [left; exact F|right].
+  split; [|exact X]. destruct (Nat.eq_dec t 0); auto. exfalso.
+  assert (Sv : subinv st).
+  { unfold st. apply steps_inv; [apply subinv_step|apply subinv_init; exact S]. }
+  rewrite (submit_not_waiting th _ (Sv _ _ Ht n)) in X. discriminate.
+Qed.
